@@ -89,6 +89,67 @@ def qualifier(inv, case, rec):
     return 'general'
 
 
+def _walk(x, fn):
+    if isinstance(x, dict):
+        for k, v in list(x.items()):
+            r = fn(v)
+            if r is not None:
+                x[k] = r
+            else:
+                _walk(v, fn)
+    elif isinstance(x, list):
+        for i, v in enumerate(x):
+            r = fn(v)
+            if r is not None:
+                x[i] = r
+            else:
+                _walk(v, fn)
+
+
+def to_coords(case, rnd):
+    """The same problem with coordinate locations and no matrices (routing approximated by the reader): every location index gets
+    its own point on a 600 m square, some of them a few metres from another one."""
+    c = copy.deepcopy(case)
+    c['id'] = case['id'] + 'g'
+    n = int(round(len(case['matrices'][0]['distances']) ** 0.5))
+    pts = []
+    while len(pts) < n:
+        if pts and rnd.random() < 0.3:
+            bx, by = rnd.choice(pts)
+            p = (bx + rnd.choice([-9, -4, 3, 5, 8]), by + rnd.choice([-7, -3, 0, 4, 6]))
+        else:
+            p = (rnd.randrange(0, 600), rnd.randrange(0, 600))
+        if p not in pts and p[0] >= 0 and p[1] >= 0:
+            pts.append(p)
+    coords = [{'lat': round(52.0 + y * 0.000009, 7), 'lng': round(13.0 + x * 0.0000146, 7)} for x, y in pts]
+    _walk(c['problem'], lambda v: dict(coords[v['index']]) if isinstance(v, dict) and set(v.keys()) == {'index'} else None)
+    c['matrices'] = None
+    c['wantApprox'] = True
+    c['features'] = sorted(set(c.get('features', [])) | {'coords'})
+    return c
+
+
+def from_coords(case, outcome):
+    """Index twin of a coordinate case for the projection: locations numbered as in the reader's coordinate index, matrices as the
+    reader approximated them.  Returns (problem, matrices, solution, unknown) - unknown: reported locations that are no location of the problem."""
+    locs = outcome['approx']['locations']
+    ix = {(l['lat'], l['lng']): k for k, l in enumerate(locs)}
+    unknown = []
+    def conv(v):
+        if isinstance(v, dict) and set(v.keys()) == {'lat', 'lng'}:
+            k = ix.get((v['lat'], v['lng']))
+            if k is None:
+                unknown.append(v)
+                return {'index': 0}
+            return {'index': k}
+        return None
+    problem, solution = copy.deepcopy(case['problem']), copy.deepcopy(outcome['solution'])
+    _walk(problem, conv)
+    in_problem = list(unknown)
+    _walk(solution, conv)
+    return problem, outcome['approx']['matrices'], solution, unknown, in_problem
+
+
 def add_clustering(case, rnd):
     """The same problem with vicinity clustering switched on (thresholds in the range of the generated matrices)."""
     c = copy.deepcopy(case)
@@ -256,9 +317,25 @@ def run(pid, tier):
             ic['config']['termination'] = {'maxGenerations': rnd.choice([0, 1, 3]) or 1, 'maxTime': 30}
             init_cases.append(ic)
     init_out = solve(pid + '-i', init_cases, jobs=10) if init_cases else {}
-    cases_by_id = {c['id']: c for c in cases + rel_cases + init_cases}
+    # fourth pass: coordinate twins (no matrices: the reader approximates the routing data and reports it back)
+    geo_cases = [to_coords(c, rnd) for c in cases if 'unreachable' not in c.get('features', []) and rnd.random() < 0.15]
+    geo_out = solve(pid + '-g', geo_cases, jobs=10) if geo_cases else {}
+    cases_by_id = {c['id']: c for c in cases + rel_cases + init_cases + geo_cases}
     outcomes.update(rel_out)
     outcomes.update(init_out)
+    outcomes.update(geo_out)
+    geo_unknown, geo_uncovered = {}, {}
+    for c in geo_cases:
+        o = outcomes[c['id']]
+        if o['status'] == 'ok':
+            problem_ix, matrices, solution_ix, unknown, uncovered = from_coords(c, o)
+            if uncovered:
+                geo_uncovered[c['id']] = uncovered
+            c['problem_coords'], o['solution_coords'] = c['problem'], o['solution']
+            c['problem'], c['matrices'], o['solution'] = problem_ix, matrices, solution_ix
+            c['metric'] = pgen._metric(c)
+            if unknown:
+                geo_unknown[c['id']] = unknown
 
     status = collections.Counter(o['status'] for o in outcomes.values())
     recs, unsupported, not_ok = [], collections.Counter(), []
@@ -267,6 +344,8 @@ def run(pid, tier):
         if o['status'] != 'ok':
             not_ok.append((cid, o['status'], o.get('error', '')[:200], o.get('codes')))
             continue
+        if cid in geo_unknown:
+            continue        # reported below: a location that is none of the problem's cannot be replayed
         try:
             recs.append(project.project(c['problem'], c['matrices'], o['solution'], cid))
         except project.Unsupported as e:
@@ -313,6 +392,15 @@ def run(pid, tier):
         key = '%s/%s/%s' % (pid, name, qualifier(name, c, recs_by_id[rid]))
         verdict.add(key, 'record %s violates %s' % (rid, name),
                     {'case': c, 'solution': outcomes[rid]['solution'], 'invariant': name})
+    if pid in ('C01', 'C03'):
+        for cid, missing in geo_uncovered.items():
+            verdict.add('%s/RoutingDataCoversProblemLocations/coords' % pid, 'record %s: the location index the reader derives has no entry for %s' % (cid, json.dumps(missing[:2])),
+                        {'case': dict(cases_by_id[cid], problem=cases_by_id[cid]['problem_coords'], matrices=None), 'solution': outcomes[cid]['solution_coords']})
+        for cid, unknown in geo_unknown.items():
+            if cid in geo_uncovered:
+                continue
+            verdict.add('%s/ReportedLocationIsOfTheProblem/coords' % pid, 'record %s reports %s, which is no location of the problem' % (cid, json.dumps(unknown[:2])),
+                        {'case': dict(cases_by_id[cid], problem=cases_by_id[cid]['problem_coords'], matrices=None), 'solution': outcomes[cid]['solution_coords']})
     clustering = clustering_pass(pid, tier, cases, rnd, verdict) if pid == 'C02' else None
     rc = verdict.finish()
 
@@ -329,14 +417,14 @@ def run(pid, tier):
                      'unassigned': [u['job'] for u in sample['unassigned']], 'config': cases_by_id[sample['id']]['config']}],
         'invariants_judged': sorted(mine), 'invariants_failed_of_other_properties': dict(others),
         'solver_status': dict(status), 'not_ok_runs_not_judged_here': not_ok[:5], 'unsupported_projection': dict(unsupported),
-        'relation_cases': len(rel_cases), 'seeded_cases': len(init_cases), 'vicinity_clustering_pass': clustering, 'feature_counts': dict(feats),
+        'relation_cases': len(rel_cases), 'seeded_cases': len(init_cases), 'coordinate_cases': len(geo_cases), 'coordinate_cases_judged': sum(1 for c in geo_cases if outcomes[c['id']]['status'] == 'ok'), 'vicinity_clustering_pass': clustering, 'feature_counts': dict(feats),
         'canaries': {'applied': canary_total, 'rejected': canary_rejected},
         'known_finding_hits': {k: len(v) for k, v in verdict.known_hits.items()},
         'tlc_wall_s': round(res.wall, 1),
     }
     common.write_evidence(pid, tier, 'model_checking', cov, time.time() - t0, len(verdict.violations),
                           ['projection vlib/project.py is mechanical (lookups only)', 'TLC evaluates VrpModel definitions correctly',
-                           'generated problems are valid per the documentation (integer stratum, index locations, explicit matrices)'])
+                           'generated problems are valid per the documentation (integer stratum, index locations with explicit matrices; a coordinate stratum whose routing data is the approximation the reader itself derives - its accuracy is C16 territory)'])
     return rc
 
 
@@ -346,6 +434,21 @@ def replay(pid, path):
     r = json.load(open(path))
     rp = r['replay']
     c, inv = rp['case'], rp.get('invariant')
+    if c.get('matrices') is None:
+        # coordinate record (a location missing from the reader's index / a reported location unknown to the problem): solve again and compare the locations
+        c2 = copy.deepcopy(c); c2['id'] = c['id'] + '-again'; c2['wantApprox'] = True
+        o = solve(pid + '-replay', [c2], jobs=1)[c2['id']]
+        if o['status'] != 'ok':
+            print('re-solve: status %s %s' % (o['status'], o.get('error', '')[:200]))
+            return 2
+        _, _, _, unknown, uncovered = from_coords(c2, o)
+        if unknown or uncovered:
+            print('VIOLATION property=%s replay=%s' % (pid, path))
+            print('  %s: locations without an entry in the derived routing data %s, reported locations unknown to the problem %s' % (r.get('key'), json.dumps(uncovered[:3]), json.dumps(unknown[:3])))
+            return 1
+        print('every location of the problem and of the new solution is covered by the derived routing data now')
+        return 0
+    c.pop('wantApprox', None)
     recs = [project.project(c['problem'], c['matrices'], rp['solution'], c['id'])]
     if not os.environ.get('VERIF_REPLAY_NO_SOLVE'):
         c2 = copy.deepcopy(c); c2['id'] = c['id'] + '-again'
